@@ -268,7 +268,9 @@ class AnmRunner:
         return sempler.ANM(A, assignments, self.noises)
 
     def _attrs(self, m):
-        return _snap([np.asarray(m.A), [int(x) for x in m.ordering], m.p, len(m.assignments), len(m.noise_distributions)])
+        # documented attributes: A, p, assignments, noise_distributions ('ordering' is internal: used only if present)
+        order = getattr(m, "ordering", None)
+        return _snap([np.asarray(m.A), None if order is None else [int(x) for x in order], m.p, len(m.assignments), len(m.noise_distributions)])
 
     def step(self, step):
         import sempler.noise as noise
